@@ -27,6 +27,7 @@ pub fn def() -> CheckDef {
         cpu_limit_s: 30,
         fault_kinds: "none (conservation invariant over the recorded history)",
         count_subruns: false,
+        expect_probes: &["first_repetition_grew"],
     }
 }
 
@@ -208,6 +209,7 @@ pub fn run(case: &Case, known: &BTreeSet<String>) -> Outcome {
     runner::run_ops(&mut w, &case.ops[..prefix], 0, &mut ctx);
     let mut base_hash = crate::dump::hash_dump(&w.model.dump());
     let mut lens = vec![];
+    let len_before = w.lib.disk.len();
     for r in 0..REPS {
         if ctx.stop {
             break;
@@ -239,7 +241,7 @@ pub fn run(case: &Case, known: &BTreeSet<String>) -> Outcome {
                 n,
                 true,
             );
-        } else if lens[0] < lens[1] {
+        } else if len_before < lens[0] {
             ctx.out.stats.probe("first_repetition_grew");
         }
     }
